@@ -420,3 +420,99 @@ def fresh_results(ctx, rule: str, table, consequence: str):
                    message=f"{cname}.{m} can return the object it was called on (directly, through a local alias of self, or through a helper "
                            f"that can): the 'new' object shares identity with the original",
                    consequence=consequence)
+
+
+CONTAINER_MUTATORS = ("append", "extend", "insert", "pop", "remove", "clear", "update", "setdefault", "popitem", "add", "discard", "sort", "reverse")
+
+
+def mutable_defaults(ctx, rule: str, consequence: str):
+    """A mutable default argument (list / dict / set literal or constructor call) is one object shared by all calls: it must
+    never be modified (store, augmented assignment, or a mutating container method), or a call's result depends on earlier calls."""
+    repo = ctx.repo
+    n = sites = 0
+    for f in repo.all_functions():
+        if f.module.name.startswith("tdgl.test"):
+            continue
+        n += 1
+        a = f.node.args
+        pos = a.posonlyargs + a.args
+        pairs = list(zip(pos[len(pos) - len(a.defaults):], a.defaults)) + [(k, d) for k, d in zip(a.kwonlyargs, a.kw_defaults) if d is not None]
+        for p_, d in pairs:
+            mutable = isinstance(d, (ast.List, ast.Dict, ast.Set, ast.ListComp, ast.DictComp, ast.SetComp)) or (
+                isinstance(d, ast.Call) and norm(d.func).split(".")[-1] in ("dict", "list", "set", "array", "zeros", "ones", "empty", "defaultdict", "OrderedDict"))
+            if not mutable:
+                continue
+            sites += 1
+            res = analyse(f.node, skip_params=tuple(x.arg for x in pos + a.kwonlyargs if x.arg != p_.arg))
+            bad = [(node, what) for node, lab, what in res.writes if lab == p_.arg]
+            # aliases of the parameter: names bound to it by plain assignment
+            names = {p_.arg}
+            for st in own_nodes(f.node):
+                if isinstance(st, ast.Assign) and isinstance(st.value, ast.Name) and st.value.id in names:
+                    names |= {t.id for t in st.targets if isinstance(t, ast.Name)}
+            rebound = any(isinstance(st, ast.Assign) and any(isinstance(t, ast.Name) and t.id == p_.arg for t in st.targets) for st in own_nodes(f.node))
+            for c in own_nodes(f.node):
+                if isinstance(c, ast.Call) and isinstance(c.func, ast.Attribute) and c.func.attr in CONTAINER_MUTATORS \
+                        and isinstance(c.func.value, ast.Name) and c.func.value.id in names and not rebound:
+                    bad.append((c, f".{c.func.attr}()"))
+            ctx.ob(rule, f"{f.qual}: mutable default `{p_.arg}={norm(d)[:40]}` is never modified", not bad,
+                   detail=[f"L{b.lineno}: {w}" for b, w in bad], where=f.fq, construct=f"mutable default `{p_.arg}` of {f.qual} is modified",
+                   loc=loc(f, bad[0][0] if bad else f.node),
+                   message=f"{f.qual} modifies its mutable default argument `{p_.arg}` ({'; '.join(w for _, w in bad[:2])}): the default object is shared by all calls",
+                   consequence=consequence)
+    ctx.ob(rule, f"{n} functions scanned, {sites} mutable default(s): none is modified", True, detail={"functions": n, "mutable_defaults": sites},
+           where="package", construct="mutable defaults (package)")
+
+
+def no_global_state(ctx, rule: str, consequence: str):
+    """No function writes module-level or class-level state (global statement; store / mutating call on a module-level name;
+    store to `ClassName.attr`, `cls.attr`, `type(self).attr`): such state survives from one run to the next in a process."""
+    repo = ctx.repo
+    n = 0
+    bad_all = []
+    class_names = {c.name for m in repo.modules.values() for c in m.classes.values()}
+    for m in repo.modules.values():
+        if m.name.startswith("tdgl.test"):
+            continue
+        tree = ast.parse(m.source)
+        glob = set()
+        for st in tree.body:
+            if isinstance(st, (ast.Assign, ast.AnnAssign)):
+                for t in (st.targets if isinstance(st, ast.Assign) else [st.target]):
+                    if isinstance(t, ast.Name):
+                        glob.add(t.id)
+        for f in m.functions.values():
+            n += 1
+            locs = {a.arg for a in f.node.args.args + f.node.args.kwonlyargs + f.node.args.posonlyargs}
+            declared_global = set()
+            for x in own_nodes(f.node):
+                if isinstance(x, ast.Global):
+                    declared_global |= set(x.names)
+            for x in own_nodes(f.node):
+                if isinstance(x, ast.Name) and isinstance(x.ctx, ast.Store) and x.id not in declared_global:
+                    locs.add(x.id)
+            bad = []
+            for x in own_nodes(f.node):
+                if isinstance(x, ast.Name) and isinstance(x.ctx, ast.Store) and x.id in declared_global:
+                    bad.append((x, f"global {x.id} rebound"))
+                if isinstance(x, (ast.Subscript, ast.Attribute)) and isinstance(x.ctx, (ast.Store, ast.Del)) and isinstance(x.value, ast.Name):
+                    b = x.value.id
+                    if (b in glob and b not in locs) or (b in class_names and b not in locs) or (b == "cls" and isinstance(x, ast.Attribute)):
+                        bad.append((x, f"{norm(x)} = ..."))
+                if isinstance(x, ast.Attribute) and isinstance(x.ctx, (ast.Store, ast.Del)) and norm(x.value) in ("type(self)", "self.__class__"):
+                    bad.append((x, f"{norm(x)} = ..."))
+                if isinstance(x, ast.Call) and isinstance(x.func, ast.Attribute) and x.func.attr in CONTAINER_MUTATORS:
+                    v = x.func.value
+                    if isinstance(v, ast.Name) and v.id in glob and v.id not in locs:
+                        bad.append((x, f"{norm(x)[:50]}"))
+                    if isinstance(v, ast.Attribute) and isinstance(v.value, ast.Name) and (v.value.id in class_names or v.value.id == "cls") \
+                            and v.value.id not in locs:
+                        bad.append((x, f"{norm(x)[:50]}"))
+            for node, what in bad:
+                bad_all.append(what)
+                ctx.ob(rule, f"{f.qual} writes process-wide state", False, where=f.fq, construct=f"process-wide state written in {f.qual}: {what}",
+                       loc=loc(f, node), message=f"{f.qual} modifies module- or class-level state: L{node.lineno} {what}", consequence=consequence)
+    ctx.ob(rule, f"{n} functions scanned: none writes module- or class-level state", True, detail={"functions": n}, where="package",
+           construct="process-wide state (package)")
+    if n < 150:
+        raise AnalysisError(f"global-state scan saw only {n} functions")
